@@ -18,7 +18,7 @@ var vT3 = []vProgram{
 	{name: "br_table", params: []byte{i32}, results: []byte{i32},
 		body: cat([]byte{0x02, 0x40, 0x02, 0x40, 0x02, 0x40}, lg(0), []byte{0x0e, 0x02, 0x00, 0x01, 0x02, 0x0b}, i32const(10), []byte{0x0f, 0x0b}, i32const(20), []byte{0x0f, 0x0b}, i32const(30))},
 	// loop: sum = n + (n-1) + ... while n != 0 (n <= 3), uses a local and local.tee
-	{name: "loop-sum", params: []byte{i32}, locals: []byte{i32}, results: []byte{i32},
+	{name: "loop-sum", params: []byte{i32}, locals: []byte{i32}, results: []byte{i32}, loopMax: 3,
 		body: cat([]byte{0x03, 0x40}, lg(1), lg(0), []byte{0x6a, 0x21, 0x01}, lg(0), i32const(1), []byte{0x6b, 0x22, 0x00}, []byte{0x0d, 0x00, 0x0b}, lg(1))},
 	// globals: g0 = g0 + x ; g1 = g0 * 2 ; return g1
 	{name: "globals", globals: 2, params: []byte{i32}, results: []byte{i32},
@@ -32,18 +32,39 @@ var vT3 = []vProgram{
 		extra: []interpreter.VerifFuncSpec{{Params: []byte{i32}, Results: []byte{i32}, Body: cat(lg(0), []byte{0x45, 0x04, 0x40, 0x00, 0x0b}, i32const(100), lg(0), []byte{0x6d})}}},
 	// select on a comparison of two computed values, nested blocks
 	{name: "select-cmp", params: []byte{i32, i32}, results: []byte{i32}, body: cat(lg(0), lg(1), lg(0), lg(1), []byte{0x48, 0x1b})},
+	// loop-carried parallel assignment on the back edge: prev = cur ; cur = const, prev read in the next iteration
+	{name: "loop-shift-const", params: []byte{i32, i32}, locals: []byte{i32, i32, i32}, results: []byte{i32}, loopMax: 3,
+		body: cat(lg(1), ls(3), []byte{0x03, 0x40}, lg(4), i32const(31), []byte{0x6c}, lg(2), []byte{0x6a}, ls(4), lg(3), ls(2), i32const(7), ls(3),
+			vCountDown, []byte{0x0b}, lg(4), lg(2), []byte{0x6a}, lg(3), []byte{0x6a})},
+	// swap of two loop-carried locals on every iteration (a cycle in the block-argument moves)
+	{name: "loop-swap", params: []byte{i32, i32, i32}, locals: []byte{i32}, results: []byte{i32, i32}, loopMax: 3,
+		body: cat([]byte{0x03, 0x40}, lg(1), ls(3), lg(2), ls(1), lg(3), ls(2), vCountDown, []byte{0x0b}, lg(1), lg(2))},
+	// rotation of three loop-carried locals
+	{name: "loop-rotate3", params: []byte{i32, i64, i64, i64}, locals: []byte{i64}, results: []byte{i64, i64, i64}, loopMax: 3,
+		body: cat([]byte{0x03, 0x40}, lg(1), ls(4), lg(2), ls(1), lg(3), ls(2), lg(4), ls(3), vCountDown, []byte{0x0b}, lg(1), lg(2), lg(3))},
+	// swap of two loop-carried f64 locals, an integer accumulator beside them
+	{name: "loop-swap-f64", params: []byte{i32, f64, f64}, locals: []byte{f64, i32}, results: []byte{f64, f64, i32}, loopMax: 3,
+		body: cat([]byte{0x03, 0x40}, lg(1), ls(3), lg(2), ls(1), lg(3), ls(2), lg(4), i32const(5), []byte{0x6a}, ls(4), vCountDown, []byte{0x0b}, lg(1), lg(2), lg(4))},
+	// if without else that reassigns one of two locals from the other and a constant: both reach the join as block arguments
+	{name: "if-join-shift", params: []byte{i32, i32, i32}, results: []byte{i32, i32},
+		body: cat(lg(0), []byte{0x04, 0x40}, lg(2), ls(1), i32const(9), ls(2), []byte{0x0b}, lg(1), lg(2))},
 	// unreachable guarded by a condition
 	{name: "cond-unreachable", params: []byte{i32}, results: []byte{i32}, body: cat(lg(0), i32const(5), []byte{0x46, 0x04, 0x40, 0x00, 0x0b}, lg(0))},
 }
 
+// vCountDown: local0 = local0 - 1 ; br_if 0 (continue while non-zero)
+var vCountDown = cat(lg(0), i32const(1), []byte{0x6b, 0x22, 0x00}, []byte{0x0d, 0x00})
+
+func ls(i byte) []byte { return []byte{0x21, i} }
+
 // VerifC01_T3: control-flow, locals, globals and call programs: optimised wazevo SSA == interpreter for all inputs.
-//verif:opts split=prog:9
+//verif:opts split=prog:14
 func VerifC01_T3() {
 	p := vT3[verifrt.Choose("prog", len(vT3))]
-	if p.name == "loop-sum" {
+	if p.loopMax != 0 {
 		// bound the loop: evaluated in vCompare through parameter a0
 		n := uint32(verifrt.U64("a0"))
-		verifrt.Assume(n >= 1 && n <= 3)
+		verifrt.Assume(n >= 1 && n <= p.loopMax)
 	}
 	vCompare(&p)
 }
